@@ -48,6 +48,9 @@ snoopy_inputdatastorage_t *snoopy_inputdatastorage_get(void){ return &ids; }
 void harness(void){
   verif_ghost_init(); verif_w_init(); verif_snprintf_register = 1;
   verif_arg_size = nondet_size_t();
+#ifdef H_LINES
+  __CPROVER_assume(verif_w.lines_left <= H_LINES);
+#endif
   verif_w.env_val = nondet_bool() ? (char *)0 : verif_mk_string(2000000); if (verif_w.env_val) verif_tag(verif_w.env_val, T_ENVVAL);
 #ifdef H_INPUTDATA
   ids.initialized = SNOOPY_TRUE; ids.filename = verif_mk_string(2000000); ids.argv = 0;
